@@ -36,7 +36,9 @@ import (
 
 func init() { commands["runcache"] = runcacheCmd }
 
-var rcFiles = []string{"f0.txt", "f1.txt", "g0.dat", "g1.dat"}
+// f[1].txt: a literal name made of characters that are special in patterns (a dependency is a pattern only if it contains '*');
+// g1.dat is realised as a symbolic link to a file outside the project: a dependency is what opening its path yields
+var rcFiles = []string{"f0.txt", "f[1].txt", "g0.dat", "g1.dat"}
 
 type rcGlob struct {
 	pat   string
@@ -284,11 +286,23 @@ func runcacheCmd(args []string) error {
 			switch o.kind {
 			case 'E':
 				p := filepath.Join(root, rcFiles[o.p])
+				store := filepath.Join(filepath.Dir(root), "store-"+filepath.Base(root))
 				if o.c == "-" {
 					os.Remove(p)
+					if o.p == 3 {
+						os.Remove(filepath.Join(store, rcFiles[o.p]))
+					}
 					delete(content, o.p)
 				} else {
-					os.WriteFile(p, []byte(o.c), 0o644)
+					if o.p == 3 {
+						os.MkdirAll(store, 0o755)
+						os.WriteFile(filepath.Join(store, rcFiles[o.p]), []byte(o.c), 0o644)
+						if _, err := os.Lstat(p); err != nil {
+							os.Symlink(filepath.Join(store, rcFiles[o.p]), p)
+						}
+					} else {
+						os.WriteFile(p, []byte(o.c), 0o644)
+					}
 					content[o.p] = o.c
 				}
 			case 'X':
